@@ -1199,12 +1199,26 @@ class Gen:
         self.vars[name] = var
         self.extra_locals.append(var)
         limit = self.int(0, 3)
+        flag = None
+        if self.flip(1, 3):
+            # flag-controlled form: the tested variable is assigned in the
+            # body without being read there
+            flag = Var(f"lw{self.while_counter}", "log", role="local")
+            flag.reserved = True
+            self.vars[flag.name] = flag
+            self.extra_locals.append(flag)
+            self.features.add("dowhile_flag")
         self._while_depth = self.while_depth() + 1
         self.loop_kinds.append("while")
         body = self.block(1, 2)
         self.loop_kinds.pop()
         self._while_depth -= 1
         self.features.add("dowhile")
+        if flag is not None:
+            return ([f"{name} = 0", f"{flag.name} = ({name} < {limit})",
+                     f"do while ({flag.name})"] + body +
+                    [f"  {name} = {name} + 1",
+                     f"  {flag.name} = ({name} < {limit})", "end do"])
         return ([f"{name} = 0", f"do while ({name} < {limit})"] + body +
                 [f"  {name} = {name} + 1", "end do"])
 
@@ -1575,7 +1589,8 @@ def programs(draw, profile=None):
         body.extend(gen.stmt())
     # while-loop counters are initialised up front (their loop may sit in
     # a branch that is not taken while later statements read them)
-    body[2:2] = [f"{v.name} = 0" for v in gen.extra_locals]
+    body[2:2] = [f"{v.name} = " + (".false." if v.typ == "log" else "0")
+                 for v in gen.extra_locals]
     prog.args = args
     prog.locals = locs + gen.extra_locals
     prog.body = body
@@ -1650,7 +1665,8 @@ def statement_spans(lines):
     return spans
 
 
-_PROLOGUE = re.compile(r"^(t = 0\.0|it = 0|iw\d+ = 0|ht = 0\.0)$")
+_PROLOGUE = re.compile(
+    r"^(t = 0\.0|it = 0|iw\d+ = 0|ht = 0\.0|lw\d+ = \.false\.)$")
 
 
 def shrink_prog(prog, still_fails, max_checks=80):
